@@ -64,8 +64,13 @@ def module_desc(draw):
             # a class in unittest's older style: no test_* methods, one
             # runTest method (never used as a base class here)
             methods = ['runTest']
+        if base is None and methods != ['runTest'] and draw(
+                st.integers(0, 8)) == 0:
+            # a class with no tests of its own (fixtures and helpers only);
+            # it may well carry the tag
+            methods = []
         tagged = draw(st.lists(st.sampled_from(methods), max_size=len(
-            methods), unique=True))
+            methods), unique=True)) if methods else []
         classes.append({'name': name, 'base': base, 'kind': kind,
                         'methods': sorted(methods),
                         'tagged_methods': sorted(tagged),
@@ -196,8 +201,7 @@ def valid(case):
                 if c['base'] is not None or any(
                         x['base'] == c['name'] for x in cl):
                     return False
-            elif not c['methods'] or any(m not in METHODS
-                                         for m in c['methods']):
+            elif any(m not in METHODS for m in c['methods']):
                 return False
             if any(m not in c['methods'] for m in c['tagged_methods']):
                 return False
@@ -254,6 +258,8 @@ def module_source(desc, logpath):
             lines.append('@tag')
         base = c['base'] or c['kind']
         lines.append('class %s(%s):' % (c['name'], base))
+        if not c['methods']:
+            lines += ['    def helper(self):', '        return 1', '']
         for (i, m) in enumerate(c['methods']):
             # every third method goes through a functools.wraps decorator,
             # with @tag (if any) above it; every third with @tag beneath it
@@ -319,8 +325,8 @@ def model(desc, argv):
             all_tests.append('%s.%s' % (cname, m))
             if t or ct:
                 tag_tests.append('%s.%s' % (cname, m))
-        if ct or any(meths.values()):
-            listed.append(cname)
+        if meths and (ct or any(meths.values())):
+            listed.append(cname)    # (a class without tests holds none)
     if argv.get('k'):
         # unittest's -k: substring match on "<module>.<Class>.<method>"
         all_tests = [t for t in all_tests if argv['k'] in '.' + t]
